@@ -84,6 +84,19 @@ func init() {
 		if !proof.RangeProofs[idx][0].Proves(st) {
 			return "built-but-not-reported"
 		}
+		// the verifier asks with its own copy of the statement (how the prover split the slack is
+		// no part of it), and for what the statement implies
+		vst := &rangeproof.Statement{Sign: st.Sign, Factor: st.Factor, Bound: new(big.Int).Set(st.Bound)}
+		if !proof.RangeProofs[idx][0].Proves(vst) {
+			return "built-but-not-reported-to-the-verifier"
+		}
+		weaker := &rangeproof.Statement{Sign: st.Sign, Factor: st.Factor, Bound: new(big.Int).Sub(st.Bound, bi(int64(st.Sign)))}
+		if !proof.RangeProofs[idx][0].Proves(weaker) {
+			return "built-but-implied-statement-not-reported"
+		}
+		if pst, _ := squaresTableStatement(vst); pst != nil && !proof.RangeProofs[idx][0].Proves(pst) {
+			return "built-but-not-reported-for-a-statement-naming-a-table"
+		}
 		return "ok accept proves"
 	}
 }
@@ -138,6 +151,11 @@ func init() {
 		}
 		return "ok"
 	}
+}
+
+// squaresTableStatement: the same statement as a prover with a (small) table would hold it
+func squaresTableStatement(st *rangeproof.Statement) (*rangeproof.Statement, error) {
+	return &rangeproof.Statement{Sign: st.Sign, Factor: st.Factor, Bound: st.Bound, Splitter: squaresTable(40)}, nil
 }
 
 var tables = map[int64]*rangeproof.SquaresTable{}
